@@ -22,22 +22,22 @@ Section Reader.
   (* the string, bytes, stream and file entry points agree for every plug-in, every text the
      codec can represent, every parser state *)
   Lemma entry_points_agree s b data :
-    enc cd s = Some b -> dec cd b = Some s ->
+    enc cd s = Some b -> dec cd b = Some s -> fdec cd b = FText s ->
     parse_bytes db ps cd u b data = parse_string db ps cd u s data /\
     parse_file db ps cd u (FStream (own_stream s b)) data = parse_string db ps cd u s data /\
     parse_file db ps cd u (FOpened b) data
       = parse_string db ps cd u (if u then universal_newlines s else s) data.
   Proof.
-    intros E D. unfold parse_bytes, parse_string, parse_file, own_stream.
-    destruct u; rewrite ?E, ?D; repeat split; reflexivity.
+    intros E D F. unfold parse_bytes, parse_string, parse_file, own_stream.
+    destruct u; rewrite ?E, ?D, ?F; repeat split; reflexivity.
   Qed.
 
   (* without carriage returns (or for a bytes-oriented plug-in) the named file is no exception *)
   Lemma entry_points_agree_file s b data :
-    enc cd s = Some b -> dec cd b = Some s -> (u = true -> ~ In 13%N s) ->
+    enc cd s = Some b -> dec cd b = Some s -> fdec cd b = FText s -> (u = true -> ~ In 13%N s) ->
     parse_file db ps cd u (FOpened b) data = parse_string db ps cd u s data.
   Proof.
-    intros E D C. destruct (entry_points_agree s b data E D) as (_ & _ & ->).
+    intros E D F C. destruct (entry_points_agree s b data E D F) as (_ & _ & ->).
     destruct u; [|reflexivity]. now rewrite universal_newlines_id by auto.
   Qed.
 
@@ -57,7 +57,7 @@ End Reader.
 
 Section Writer.
   Variable wd : Type.
-  Variable ws : bool -> wd -> res str.
+  Variable ws : bool -> wd -> res (list str).
   Variable cd : codec.
   Variable u : bool.
 
@@ -69,20 +69,26 @@ Section Writer.
     to_string wd ws cd u d = Ok t ->
     to_bytes wd ws cd u d = match enc cd t with Some b => Ok b | None => Crash end.
   Proof.
-    intros RT. unfold to_string, to_bytes, to_string_or_bytes. destruct (ws u d) as [r| | |]; cbn; try discriminate.
+    intros RT. unfold to_string, to_bytes, to_string_or_bytes. destruct (ws u d) as [cs| | |]; cbn; try discriminate.
     destruct u.
     - intros [= ->]. reflexivity.
-    - destruct (dec cd r) as [t'|] eqn:D; [|discriminate]. intros [= ->].
-      now rewrite (RT eq_refl r t D).
+    - destruct (dec cd (concat cs)) as [t'|] eqn:D; [|discriminate]. intros [= ->].
+      now rewrite (RT eq_refl (concat cs) t D).
   Qed.
 
-  (* writing to a named file writes exactly the to_bytes bytes (and returns None) *)
-  Lemma write_file_writes_to_bytes d :
+  (* writing to a named file writes exactly the to_bytes bytes (and returns None) -- provided
+     the writer writes something, or encoding the empty text gives no bytes (no byte-order mark) *)
+  Lemma write_file_writes_to_bytes_partial d :
+    (u = true -> ws true d = Ok [] -> enc cd [] = Some []) ->
     write_file wd ws cd u d WOpened
     = (do b <- to_bytes wd ws cd u d; Ok (None, Some (SBytes b))).
   Proof.
-    unfold write_file, to_bytes, to_string_or_bytes. destruct (ws u d) as [r| | |]; cbn; try reflexivity.
-    destruct u; [destruct (enc cd r)|]; reflexivity.
+    intros H. unfold write_file, to_bytes, to_string_or_bytes, text_file_bytes.
+    destruct u.
+    - destruct (ws true d) as [cs| | |] eqn:E; cbn; try reflexivity.
+      destruct cs as [|c cs]; [|destruct (enc cd (concat (c :: cs))); reflexivity].
+      cbn. now rewrite (H eq_refl eq_refl).
+    - destruct (ws false d) as [cs| | |]; reflexivity.
   Qed.
 
   (* an unopenable destination is a pybtex error, whatever the plug-in and the data *)
@@ -94,7 +100,7 @@ Section Writer.
     write_file wd ws cd u d (WStream u)
     = (do r <- to_string_or_bytes wd ws u d;
        let s := if u then SText r else SBytes r in Ok (Some s, Some s)).
-  Proof. reflexivity. Qed.
+  Proof. unfold write_file, to_string_or_bytes. destruct (ws u d); reflexivity. Qed.
 End Writer.
 
 (* ---- choosing the format from the file suffix equals naming it: the module-level functions
@@ -122,16 +128,16 @@ Section Module.
 
   (* the module-level string / bytes / file readers agree as the methods do *)
   Lemma db_entry_points_agree s b fmt :
-    enc cd s = Some b -> dec cd b = Some s -> ~ In 13%N s ->
+    enc cd s = Some b -> dec cd b = Some s -> fdec cd b = FText s -> ~ In 13%N s ->
     db_parse_bytes db plugins r inst df cd empty b fmt = db_parse_string db plugins r inst df cd empty s fmt /\
     (forall fname, find_plugin r inst df g_input fmt fname = find_plugin r inst df g_input fmt None ->
        db_parse_file db plugins r inst df cd empty (FOpened b) fname fmt
        = db_parse_string db plugins r inst df cd empty s fmt).
   Proof.
-    intros E D C. unfold db_parse_bytes, db_parse_string, db_parse_file, instantiate. split.
+    intros E D F C. unfold db_parse_bytes, db_parse_string, db_parse_file, instantiate. split.
     - destruct (find_plugin r inst df g_input fmt None) as [k| | |]; cbn; try reflexivity.
       destruct (plugins k) as [p|]; cbn; [|reflexivity].
-      now destruct (entry_points_agree db (p_ps p) cd (p_unicode p) s b empty E D) as (-> & _).
+      now destruct (entry_points_agree db (p_ps p) cd (p_unicode p) s b empty E D F) as (-> & _).
     - intros fname ->. destruct (find_plugin r inst df g_input fmt None) as [k| | |]; cbn; try reflexivity.
       destruct (plugins k) as [p|]; cbn; [|reflexivity].
       apply entry_points_agree_file; auto.
@@ -168,4 +174,29 @@ Proof.
   intros. split; intros H; intros.
   - now apply suffix_equals_name_read.
   - now apply suffix_equals_name_write.
+Qed.
+
+(* the full statement is false of the code (finding FC17b): a writer that never calls write()
+   -- the BibTeX writer on an empty database -- and an encoding with a byte-order mark *)
+Lemma write_file_writes_to_bytes_refuted :
+  exists (ws : bool -> unit -> res (list str)) cd u d,
+    write_file unit ws cd u d WOpened <> (do b <- to_bytes unit ws cd u d; Ok (None, Some (SBytes b))).
+Proof.
+  exists (fun _ _ => Ok []), codec_utf16, true, tt. vm_compute. discriminate.
+Qed.
+Lemma utf16_empty_is_bom : enc codec_utf16 [] = Some [255; 254]%N.
+Proof. reflexivity. Qed.
+
+(* reading a file agrees with bytes.decode for these codecs; for 'utf-16' on everything the
+   codec itself produced (it always writes the byte-order mark the file reader insists on) *)
+Lemma latin1_fdec s b : enc codec_latin1 s = Some b -> fdec codec_latin1 b = FText s.
+Proof. cbn. destruct (all_below 256 s); [intros [= ->]; reflexivity|discriminate]. Qed.
+Lemma ascii_fdec s b : enc codec_ascii s = Some b -> fdec codec_ascii b = FText s.
+Proof. cbn. unfold fdec_of_dec. destruct (all_below 128 s) eqn:E; [intros [= <-]; now rewrite E|discriminate]. Qed.
+Lemma utf8_fdec b t : dec codec_utf8 b = Some t -> fdec codec_utf8 b = FText t.
+Proof. cbn. unfold fdec_of_dec. now intros ->. Qed.
+Lemma utf16_fdec_of_enc s b t : enc codec_utf16 s = Some b -> dec codec_utf16 b = Some t -> fdec codec_utf16 b = FText t.
+Proof.
+  cbn. unfold utf16_enc. destruct (u16_enc_body s) as [b'|]; cbn; [|discriminate].
+  intros [= <-]. unfold utf16_fdec, fdec_of_dec. now intros ->.
 Qed.
